@@ -196,6 +196,56 @@ def eps32 : S := 1.1920928955078125e-7
 /-- `f64::EPSILON` = 2⁻⁵² -/
 def eps64 : F := 2.220446049250313e-16
 
+/-! `strain_value_of`, cut into its stages (same operations in the same order) -/
+
+/-- `weighted_strain_time = curr.strain_time + 13.0 + (3.0 / self.clock_rate)` -/
+def weightedStrainTime (clockRate strainTime : F) : F := strainTime + 13.0 + (3.0 / clockRate)
+
+/-- `f64::from(dist_moved.abs()).powf(1.3) / 510.0` -/
+def baseAddition (distMoved : S) : F := powf (C.toF (abs distMoved)) 1.3 / 510.0
+
+/-- the direction-change condition:
+`self.last_dist_moved.abs() > 0.1 && dist_moved.signum() != self.last_dist_moved.signum()` -/
+def directionChanged (distMoved lastDistMoved : S) : Bool :=
+  lt 0.1 (abs lastDistMoved) && !(beq (signum distMoved) (signum lastDistMoved))
+
+/-- `DIRECTION_CHANGE_BONUS / (self.last_strain_time + 16.0).sqrt() * bonus_factor
+* anti_flow_factor * (1.0 - (weighted_strain_time / 1000.0).powf(3.0)).max(0.0)` -/
+def directionTerm (distMoved lastDistMoved : S) (lastStrainTime weighted : F) : F :=
+  let bonusFactor : F := C.toF (fmin (abs distMoved) 50.0 / 50.0)
+  let antiFlowFactor : F := fmax (C.toF (fmin (abs lastDistMoved) 70.0 / 70.0)) 0.38
+  directionChangeBonus / sqrt (lastStrainTime + 16.0) * bonusFactor * antiFlowFactor
+    * fmax (1.0 - powf (weighted / 1000.0) 3.0) 0.0
+
+/-- `12.5 * f64::from(f32::abs(dist_moved).min(NORMALIZED_HITOBJECT_RADIUS * 2.0))
+/ f64::from(NORMALIZED_HITOBJECT_RADIUS * 6.0) / sqrt_strain` -/
+def movementTerm (distMoved : S) (sqrtStrain : F) : F :=
+  12.5 * C.toF (fmin (abs distMoved) (normalizedHitobjectRadius * 2.0))
+    / C.toF (normalizedHitobjectRadius * 6.0) / sqrtStrain
+
+/-- `dist_addition` after the `if dist_moved.abs() > 0.1 { … }` block -/
+def movedAddition (distMoved lastDistMoved : S) (lastStrainTime weighted : F) : F :=
+  let distAddition := baseAddition C distMoved
+  if lt 0.1 (abs distMoved) then
+    let distAddition :=
+      if directionChanged distMoved lastDistMoved then
+        distAddition + directionTerm C distMoved lastDistMoved lastStrainTime weighted
+      else distAddition
+    distAddition + movementTerm C distMoved (sqrt weighted)
+  else distAddition
+
+/-- the factor of `dist_addition *= 1.0 + edge_dash_bonus * f64::from((20.0 - dist_to_hyper_dash) / 20.0)
+* ((curr.strain_time * self.clock_rate).min(265.0) / 265.0).powf(1.5)` -/
+def edgeFactor (edgeDashBonus : F) (lastDistToHyperDash : S) (strainTime clockRate : F) : F :=
+  1.0 + edgeDashBonus * C.toF ((20.0 - lastDistToHyperDash) / 20.0)
+    * powf (fmin (strainTime * clockRate) 265.0 / 265.0) 1.5
+
+/-- the buzz-section test -/
+def buzzCondition (hcw exactDistMoved lastExactDistMoved : S) (strainTime lastStrainTime : F) : Bool :=
+  le (abs exactDistMoved) (hcw * 2.0)
+    && floatEq eps32 exactDistMoved (-lastExactDistMoved)
+    && floatEq eps64 strainTime lastStrainTime
+
 /-- `Movement::strain_value_of(curr, _)`; `none` = the `min <= max` assertion of
 `last_player_pos.clamp(curr.normalized_pos - term, curr.normalized_pos + term)` (NaN position). -/
 def strainValueOf (hcw : S) (clockRate : F) (st : St F S) (o : Obj F (DObj F S)) : Option (St F S × F) :=
@@ -207,37 +257,18 @@ def strainValueOf (hcw : S) (clockRate : F) (st : St F S) (o : Obj F (DObj F S))
   | some playerPos =>
     let distMoved : S := playerPos - lastPlayerPos
     let exactDistMoved : S := curr.normalizedPos - lastPlayerPos
-    let weightedStrainTime : F := curr.strainTime + 13.0 + (3.0 / clockRate)
-    let distAddition : F := powf (C.toF (abs distMoved)) 1.3 / 510.0
-    let sqrtStrain : F := sqrt weightedStrainTime
+    let weighted : F := weightedStrainTime clockRate curr.strainTime
+    let distAddition : F := movedAddition C distMoved st.lastDistMoved st.lastStrainTime weighted
     let edgeDashBonus : F := 0.0
-    let distAddition : F :=
-      if lt 0.1 (abs distMoved) then
-        let distAddition :=
-          if lt 0.1 (abs st.lastDistMoved) && !(beq (signum distMoved) (signum st.lastDistMoved)) then
-            let bonusFactor : F := C.toF (fmin (abs distMoved) 50.0 / 50.0)
-            let antiFlowFactor : F := fmax (C.toF (fmin (abs st.lastDistMoved) 70.0 / 70.0)) 0.38
-            distAddition
-              + directionChangeBonus / sqrt (st.lastStrainTime + 16.0) * bonusFactor * antiFlowFactor
-                * fmax (1.0 - powf (weightedStrainTime / 1000.0) 3.0) 0.0
-          else distAddition
-        distAddition
-          + 12.5 * C.toF (fmin (abs distMoved) (normalizedHitobjectRadius * 2.0))
-            / C.toF (normalizedHitobjectRadius * 6.0) / sqrtStrain
-      else distAddition
     let (playerPos, distAddition) : S × F :=
       if le curr.lastDistToHyperDash 20.0 then
         let (playerPos, edgeDashBonus) : S × F :=
           if curr.lastHyperDash then (curr.normalizedPos, edgeDashBonus) else (playerPos, edgeDashBonus + 5.7)
         (playerPos,
-          distAddition
-            * (1.0 + edgeDashBonus * C.toF ((20.0 - curr.lastDistToHyperDash) / 20.0)
-                * powf (fmin (curr.strainTime * clockRate) 265.0 / 265.0) 1.5))
+          distAddition * edgeFactor C edgeDashBonus curr.lastDistToHyperDash curr.strainTime clockRate)
       else (playerPos, distAddition)
     let (isInBuzz, distAddition) : Bool × F :=
-      if le (abs exactDistMoved) (hcw * 2.0)
-          && floatEq eps32 exactDistMoved (-st.lastExactDistMoved)
-          && floatEq eps64 curr.strainTime st.lastStrainTime then
+      if buzzCondition hcw exactDistMoved st.lastExactDistMoved curr.strainTime st.lastStrainTime then
         if st.isInBuzzSection then (true, 0.0) else (true, distAddition)
       else (false, distAddition)
     some
@@ -247,7 +278,7 @@ def strainValueOf (hcw : S) (clockRate : F) (st : St F S) (o : Obj F (DObj F S))
           lastStrainTime := curr.strainTime
           lastExactDistMoved := exactDistMoved
           isInBuzzSection := isInBuzz },
-        distAddition / weightedStrainTime)
+        distAddition / weighted)
 
 /-- `StrainDecaySkill::strain_value_at` -/
 def strainValueAt (hcw : S) (clockRate : F) (st : St F S) (o : Obj F (DObj F S)) : Option (St F S × F) :=
